@@ -11,6 +11,7 @@ import (
 	"bytes"
 	"encoding/json"
 	"flag"
+	"context"
 	"fmt"
 	"net/http/httptest"
 	"os"
@@ -21,6 +22,11 @@ import (
 	"github.com/nuetzliches/hookaido/internal/app"
 	"github.com/nuetzliches/hookaido/internal/pullapi"
 	"github.com/nuetzliches/hookaido/internal/queue"
+	"github.com/nuetzliches/hookaido/internal/workerapi"
+	workerapipb "github.com/nuetzliches/hookaido/internal/workerapi/proto"
+	"google.golang.org/grpc/codes"
+	"google.golang.org/grpc/status"
+	"google.golang.org/protobuf/types/known/durationpb"
 )
 
 type countStore struct {
@@ -171,6 +177,31 @@ func cmdPullOps(args []string) error {
 			}
 			return norm, rr.Code, out.Acked + out.Succeeded, conflicts
 		}
+		ws := workerapi.NewServer(srv)
+		ws.ResolveRoute = srv.ResolveRoute
+		grpcStatus := func(err error) int {
+			switch status.Code(err) {
+			case codes.OK:
+				return 204
+			case codes.InvalidArgument:
+				return 400
+			case codes.FailedPrecondition:
+				return 409
+			case codes.Unavailable:
+				return 503
+			case codes.NotFound:
+				return 404
+			}
+			return 500
+		}
+		// a single operation through the real HTTP handler
+		httpSingle := func(opName string, body map[string]interface{}) int {
+			b, _ := json.Marshal(body)
+			req := httptest.NewRequest("POST", "http://ex/pull/r/"+opName, bytes.NewReader(b))
+			rr := httptest.NewRecorder()
+			srv.ServeHTTP(rr, req)
+			return rr.Code
+		}
 		emit(map[string]interface{}{"k": "pcfg", "trace": t, "cfg": qc, "pcfg": pc})
 
 		var leases []string // every lease id ever issued, oldest first
@@ -250,6 +281,7 @@ func cmdPullOps(args []string) error {
 				var op jpop
 				var resp jpresp
 				http := 0
+				via := "ops"
 				cs.calls = 0
 				single := func(oe *pullapi.OpError) {
 					resp.Status = 204
@@ -262,29 +294,83 @@ func cmdPullOps(args []string) error {
 					op = jpop{T: "dequeue", Route: pick(r, []string{"/r", "/r", "/s"}), Batch: pick(r, []int{1, 1, 2, 3, 5, 0, -1, 101, 150, 300})}
 					params := pullapi.DequeueParams{Batch: op.Batch, HasMaxWait: true}
 					if r.chance(50) {
-						ttl := pick(r, []int64{int64(10 * time.Second), int64(30 * time.Second), int64(5 * time.Minute), 0})
+						ttl := pick(r, []int64{int64(10 * time.Second), int64(10500 * time.Millisecond), int64(30 * time.Second), int64(5 * time.Minute), 0})
 						op.TTL = &ttl
 						params.LeaseTTL, params.HasLeaseTTL = time.Duration(ttl), true
 					}
-					res, oe := srv.Dequeue(op.Route, params)
+					var items []queue.Envelope
 					resp.Status = 200
-					if oe != nil {
-						resp.Status = oe.StatusCode
+					if op.Route == "/r" && op.Batch >= 0 && r.chance(35) {
+						via = "grpc"
+						req := &workerapipb.DequeueRequest{Endpoint: "/pull/r", Batch: uint32(op.Batch), MaxWait: durationpb.New(0)}
+						if op.TTL != nil {
+							req.LeaseTtl = durationpb.New(time.Duration(*op.TTL))
+						}
+						out, err := ws.Dequeue(context.Background(), req)
+						if err != nil {
+							resp.Status = grpcStatus(err)
+						} else {
+							for _, it := range out.Items {
+								items = append(items, queue.Envelope{ID: it.Id, LeaseID: it.LeaseId})
+							}
+						}
+					} else {
+						res, oe := srv.Dequeue(op.Route, params)
+						if oe != nil {
+							resp.Status = oe.StatusCode
+						}
+						items = res.Items
 					}
-					for _, it := range res.Items {
+					for _, it := range items {
 						resp.Picks = append(resp.Picks, [2]string{it.ID, it.LeaseID})
 						leases = append(leases, it.LeaseID)
 						live[it.LeaseID] = it.ID
 					}
 				case 4:
 					op = jpop{T: "ack", L: someLease()}
-					single(srv.AckSingle("/r", op.L))
+					switch via = pick(r, []string{"ops", "http", "grpc"}); via {
+					case "http":
+						resp.Status = httpSingle("ack", map[string]interface{}{"lease_id": op.L})
+					case "grpc":
+						_, err := ws.Ack(context.Background(), &workerapipb.AckRequest{Endpoint: "/pull/r", LeaseId: op.L})
+						resp.Status = grpcStatus(err)
+					default:
+						single(srv.AckSingle("/r", op.L))
+					}
 				case 5:
-					op = jpop{T: "nack", L: someLease(), Dead: r.chance(25), Reason: "verif", Delay: pick(r, []int64{0, int64(2 * time.Second), int64(10 * time.Second), -int64(time.Second)})}
-					single(srv.NackSingle("/r", op.L, op.Dead, op.Reason, time.Duration(op.Delay)))
+					op = jpop{T: "nack", L: someLease(), Dead: r.chance(25), Reason: "verif", Delay: pick(r, []int64{0, int64(750 * time.Millisecond), int64(1500 * time.Millisecond), int64(2 * time.Second), int64(10 * time.Second), -int64(time.Second)})}
+					via = pick(r, []string{"ops", "http", "grpc"})
+					if op.Delay < 0 {
+						via = "ops" // the transports have their own rules for malformed durations
+					}
+					switch via {
+					case "http":
+						body := map[string]interface{}{"lease_id": op.L, "delay": time.Duration(op.Delay).String()}
+						if op.Dead {
+							body["dead"], body["reason"] = true, op.Reason
+						}
+						resp.Status = httpSingle("nack", body)
+					case "grpc":
+						_, err := ws.Nack(context.Background(), &workerapipb.NackRequest{Endpoint: "/pull/r", LeaseId: op.L, Delay: durationpb.New(time.Duration(op.Delay)), Dead: op.Dead, Reason: op.Reason})
+						resp.Status = grpcStatus(err)
+					default:
+						single(srv.NackSingle("/r", op.L, op.Dead, op.Reason, time.Duration(op.Delay)))
+					}
 				case 6:
-					op = jpop{T: "extend", L: someLease(), By: pick(r, []int64{int64(10 * time.Second), int64(time.Second), 0, -int64(time.Second)})}
-					single(srv.Extend("/r", op.L, time.Duration(op.By)))
+					op = jpop{T: "extend", L: someLease(), By: pick(r, []int64{int64(10 * time.Second), int64(1250 * time.Millisecond), int64(time.Second), 0, -int64(time.Second)})}
+					via = pick(r, []string{"ops", "http", "grpc"})
+					if op.By <= 0 {
+						via = "ops"
+					}
+					switch via {
+					case "http":
+						resp.Status = httpSingle("extend", map[string]interface{}{"lease_id": op.L, "extend_by": time.Duration(op.By).String()})
+					case "grpc":
+						_, err := ws.Extend(context.Background(), &workerapipb.ExtendRequest{Endpoint: "/pull/r", LeaseId: op.L, ExtendBy: durationpb.New(time.Duration(op.By))})
+						resp.Status = grpcStatus(err)
+					default:
+						single(srv.Extend("/r", op.L, time.Duration(op.By)))
+					}
 				case 7, 8, 9:
 					var raw []string
 					for j := 0; j < 1+r.intn(5); j++ {
@@ -326,11 +412,26 @@ func cmdPullOps(args []string) error {
 					resp.Picks = [][2]string{}
 				}
 				resp.StoreCalls = cs.calls
+				// keep the generator's idea of "currently held" leases roughly right (bias only)
+				if (op.T == "ack" || op.T == "nack") && resp.Status == 204 {
+					delete(live, strings.TrimSpace(op.L))
+				}
+				if op.T == "ack_batch" || op.T == "nack_batch" {
+					bad := map[string]bool{}
+					for _, c := range resp.Conflicts {
+						bad[fmt.Sprint(c[0])] = true
+					}
+					for _, l := range op.Ls {
+						if !bad[l] {
+							delete(live, l)
+						}
+					}
+				}
 				cache := [][3]interface{}{}
 				for _, e := range srv.VerifRecentLeaseOps() {
 					cache = append(cache, [3]interface{}{e.LeaseID, e.Op, e.ExpiresAt.UnixNano()})
 				}
-				emit(map[string]interface{}{"k": "pstep", "now": clock.now, "op": op, "resp": resp, "http": http, "after": snapshot(), "cache": cache})
+				emit(map[string]interface{}{"k": "pstep", "now": clock.now, "op": op, "resp": resp, "http": http, "via": via, "after": snapshot(), "cache": cache})
 			}
 		}
 		be.close()
